@@ -109,8 +109,13 @@ class HierDictDocument(DictDocument):
                 # validator complains about the mandatory ones).
                 doc = {}
 
-            result_message = self._doc_to_object(ctx, body_class, doc,
+            try:
+                result_message = self._doc_to_object(ctx, body_class, doc,
                                                                  self.validator)
+            except RecursionError:
+                # a class that contains itself lets a document be nested as
+                # deeply as its size allows.
+                raise ValidationError(None, "The document is nested too deeply")
 
             # an empty list is "no arguments" for a wrapped message but not a
             # value of the (single, bare) argument of a bare method.
